@@ -7,8 +7,10 @@ Oracle: a byte map address -> byte built independently of miasm for each source
     bytes of each section at ImageBase+addr, zero up to the section's virtual size
   * an ELF linked by gcc at check time (bin_stream_elf): the file bytes of every
     PT_LOAD segment at its p_vaddr (program headers parsed with struct)
-  * a real VmMngr with small pages and holes (bin_stream_vm), mutated between
-    atomic sections.
+  * a real VmMngr with small pages and holes (bin_stream_vm).
+VM (set_mem), file (in-place pwrite, unbuffered file objects) and PE (virt.set) sources
+are rewritten between atomic sections exactly where the last section read, and the
+same reads are replayed in a new atomic section of the same stream object.
 getbytes = slice of the map; getbits = MSB-first bit field of the covering bytes;
 get_uN = int.from_bytes with the requested / the source's byte order; readbs =
 slice at the stream cursor.  A read with a byte outside the map must raise
@@ -32,7 +34,9 @@ CHECK = dict(
     rule=("per stream class: random reads (getbytes 1-12 bytes, getbits 0-70 bits at any bit offset, "
           "get_u8/16/32/64 with default/LE/BE order, readbs/setoffset) at addresses drawn around every region "
           "boundary of the source (inside, straddling, outside, below the base), 30% of them inside atomic "
-          "sections that repeat reads; VM content is rewritten between atomic sections; distinct = distinct "
+          "sections that repeat reads; after 80% of the atomic sections of a VM, file or PE stream exactly the bytes "
+          "read in the section are rewritten in the source and the same reads are replayed in a new atomic section "
+          "of the same stream (1-3 cycles), against the model and a never-atomic twin; distinct = distinct "
           "(class, operation, position class, length, bit offset); non-trivial = all"),
     exhaustive={"quick": False, "thorough": False},
     assumptions=["gcc/ld lay the ELF out as its program headers say",
@@ -134,11 +138,14 @@ def make_file(rng, tmpdir):
     files = []
 
     def mk():
-        f = open(path, "rb")
+        # unbuffered: the stream reads the file lazily, so an in-place rewrite must be visible
+        f = open(path, "rb", buffering=0)
         files.append(f)
         return bin_stream_file(f, offset=base, base_address=base)
     src.mk = mk
     src.files = files
+    src.wfd = os.open(path, os.O_WRONLY)
+    src.mutate = lambda a, b: os.pwrite(src.wfd, bytes([b]), a - base)
     src.cursor0 = base
     src.cursor_moved = src.cursor_moved0 = False
     return src
@@ -182,6 +189,7 @@ def make_pe(rng):
         src.skip(min(mine, theirs), max(mine, theirs))
     src.note = dict(base=base, sections=[(a, len(d)) for a, d in secs], image_end=mine, img_rva_end=theirs)
     src.mk = lambda: bin_stream_pe(q)
+    src.mutate = lambda a, b: q.virt.set(a, bytes([b]))     # the loader's own patching API
     src.cursor0 = 0
     src.cursor_moved = src.cursor_moved0 = False
     src.default_le = True       # a PE is little-endian
@@ -260,6 +268,7 @@ def make_vm(rng):
     src.pages = pages
     src.shift = shift
     src.note = dict(pages=pages, base_offset=shift, big_endian=big)
+    src.mutate = lambda a, b: vm.set_mem(a + shift, bytes([b]))
     src.mk = lambda: bin_stream_vm(vm, base_offset=shift) if shift else bin_stream_vm(vm)
     src.cursor0 = 0
     src.cursor_moved = src.cursor_moved0 = False
@@ -332,6 +341,8 @@ def run_source(src, nreads, rng, rec):
     cursor = src.cursor0
     in_atomic = 0
     recent = []
+    section = []            # (meth, op, args, addr, l) read inside the current atomic section
+    mutate = getattr(src, "mutate", None)
 
     def addr_near():
         r = rng.random()
@@ -342,8 +353,97 @@ def run_source(src, nreads, rng, rec):
             return rng.choice(list(src.mem))
         return rng.choice([0x10000, 0x7fffffff, 0x30000000])
 
-    def fail(op, pos, what_kind, detail, witness):
-        rec.fail("%s.%s %s: %s" % (cname, op, pos, what_kind), detail, witness)
+    def expect(meth, args):
+        """(classification, expected value, covered address, covered length) of a read, from the model"""
+        if meth == "getbytes":
+            exp = src.classify(args[0], args[1])
+            return exp, (exp[1] if exp[0] == "in" else None), args[0], args[1]
+        if meth == "getbits":
+            start, n = args
+            addr, k = start // 8, start % 8
+            nb = (k + n + 7) // 8
+            if n == 0:
+                return ("in", b""), 0, addr, 0
+            exp = src.classify(addr, nb)
+            want = None
+            if exp[0] == "in":
+                want = (int.from_bytes(exp[1], "big") >> (8 * nb - k - n)) & ((1 << n) - 1)
+            return exp, want, addr, nb
+        size = int(meth[5:]) // 8
+        e = args[1] if len(args) > 1 else None
+        exp = src.classify(args[0], size)
+        want = None
+        if exp[0] == "in":
+            le = src.default_le if e is None else (e == LITTLE_ENDIAN)
+            want = int.from_bytes(exp[1], "little" if le else "big")
+        return exp, want, args[0], size
+
+    def judge(meth, op, args, exp, want, got, l, tag, wit):
+        pos = "inside" if exp[0] == "in" else ("not judged" if exp[0] == "skip" else exp[1])
+        if exp[0] == "skip":
+            rec.count("reads_not_judged")
+        elif exp[0] == "out" and got[0] == "ioerror":
+            rec.count("ioerror_as_required")
+        elif exp[0] == "in" and got[0] == "ok" and got[1] == want and type(got[1]) is type(want):
+            rec.count("values_equal")
+        else:
+            key = mechanism_key(cname, kind, meth, op, exp, got, want, l, src.cursor_moved)
+            if tag.startswith("replay") and exp[0] == "in" and got[0] == "ok":
+                key += " [same read replayed in a new atomic section after the source changed]"
+            detail = "%s%r at %s (%s): %s" % (meth, args, pos, tag,
+                                             "%r, source has %r" % (got[1:], want) if exp[0] == "in"
+                                             else repr(got[1:]))
+            rec.fail(key, detail, wit)
+
+    def twin_check(meth, args, got, wit, tag=""):
+        again = outcome(getattr(bs, meth), *args)
+        un = outcome(getattr(plain, meth), *args)
+        rec.count("cached_rereads")
+        if norm(again) != norm(got) or norm(un) != norm(got):
+            rec.fail("%s.%s: cached read differs from uncached read%s" % (cname, meth, tag),
+                     "first %r, repeated %r, uncached %r" % (got, again, un), wit)
+
+    def replay_after_mutation(reads):
+        """the source changes exactly where the last atomic section read; a new atomic section on the
+        same stream object replays the same reads"""
+        for _cycle in range(rng.randint(1, 3)):
+            touched = set()
+            for meth, op, args, addr, l in reads:
+                for a in range(addr, addr + l):
+                    if a in src.mem:
+                        touched.add(a)
+            if not touched:
+                return
+            for a in sorted(touched):
+                nb = src.mem[a] ^ rng.randint(1, 255)
+                mutate(a, nb)
+                src.mem[a] = nb
+            rec.count("mutations_of_read_ranges")
+            if outcome(bs.enter_atomic_mode)[0] != "ok":
+                rec.fail("%s.enter_atomic_mode raises" % cname, "after leave", src.note)
+                return
+            rec.count("atomic_sections")
+            for meth, op, args, addr, l in reads:
+                exp, want, _a, _l = expect(meth, args)
+                got = outcome(getattr(bs, meth), *args)
+                wit = dict(source=src.note, stream=cname, op=op, args=list(args),
+                           mode="replayed in a new atomic section after the read bytes were rewritten")
+                rec.count("replays_after_mutation")
+                if exp[0] == "in":
+                    rec.count("replays_after_mutation_inside")
+                    rec.count("replays_after_mutation_inside:" + kind)
+                judge(meth, op, args, exp, want, got, l, "replay after mutation", wit)
+                twin_check(meth, args, got, wit, " [replay after the source changed]")
+            outcome(bs.leave_atomic_mode)
+
+    def leave_section():
+        r0 = outcome(bs.leave_atomic_mode)
+        if r0[0] != "ok":
+            rec.fail("%s.leave_atomic_mode raises" % cname, repr(r0), src.note)
+            return False
+        if mutate is not None and section and rng.random() < 0.8:
+            replay_after_mutation(list(section))
+        return True
 
     done = 0
     while done < nreads:
@@ -355,6 +455,7 @@ def run_source(src, nreads, rng, rec):
                 return
             in_atomic = rng.randint(3, 8)
             recent = []
+            section = []
             rec.count("atomic_sections")
         # ---- choose a read
         if in_atomic and recent and rng.random() < 0.4:
@@ -370,37 +471,20 @@ def run_source(src, nreads, rng, rec):
         atomic_tag = "atomic" if in_atomic else "plain"
         if r < 0.36:
             op, args = "getbytes", (addr, l)
-            exp = src.classify(addr, l)
-            want = exp[1] if exp[0] == "in" else None
         elif r < 0.72:
             k = rng.choice([0, 0, 1, 2, 3, 4, 5, 6, 7])
             n = rng.choice([0, 1, 2, 3, 5, 7, 8, 9, 12, 13, 16, 17, 24, 31, 32, 33, 64, 70])
             if addr < 0:
                 addr = 0
             op, args = "getbits", (addr * 8 + k, n)
-            nb = (k + n + 7) // 8
-            if n == 0:
-                exp, want = ("in", b""), 0
-            else:
-                exp = src.classify(addr, nb)
-                want = None
-                if exp[0] == "in":
-                    want = (int.from_bytes(exp[1], "big") >> (8 * nb - k - n)) & ((1 << n) - 1)
             if k:
                 rec.count("bitreads_unaligned")
             rec.count("bitreads")
-            l = nb
         elif r < 0.92:
             size = rng.choice([1, 2, 4, 8])
             e = rng.choice([None, None, LITTLE_ENDIAN, BIG_ENDIAN])
             op = "get_u%d" % (size * 8)
             args = (addr,) if e is None else (addr, e)
-            exp = src.classify(addr, size)
-            want = None
-            if exp[0] == "in":
-                le = src.default_le if e is None else (e == LITTLE_ENDIAN)
-                want = int.from_bytes(exp[1], "little" if le else "big")
-            l = size
             if e is None:
                 op += "(default order)"
         else:
@@ -416,37 +500,28 @@ def run_source(src, nreads, rng, rec):
                 continue
             src.cursor_moved = True
             op, args = "readbs", (l,)
+        meth = op.split("(")[0]
+        if meth == "readbs":
             exp = src.classify(cursor, l)
             want = exp[1] if exp[0] == "in" else None
+        else:
+            exp, want, addr, l = expect(meth, args)
         done += 1
         rec.ev()
         rec.count("reads:" + kind)
-        rec.count("op:%s:%s" % (kind, op.split("(")[0]))
+        rec.count("op:%s:%s" % (kind, meth))
         pos = "inside" if exp[0] == "in" else ("not judged" if exp[0] == "skip" else exp[1])
         rec.distinct("%s/%s/%s/%d/%s" % (kind, op, pos, l, args[0] % 8 if op == "getbits" else 0))
         if exp[0] == "out":
             rec.count("reads_outside")
             rec.count("outside:%s" % kind)
-        meth = op.split("(")[0]
         got = outcome(getattr(bs, meth), *args)
         wit = dict(source=src.note, stream=cname, op=op, args=list(args), mode=atomic_tag,
                    cursor=cursor if meth == "readbs" else None)
         if in_atomic:
             recent.append((addr, l))
             rec.count("reads_in_atomic_mode")
-        # ---- judge
-        if exp[0] == "skip":
-            rec.count("reads_not_judged")
-        elif exp[0] == "out" and got[0] == "ioerror":
-            rec.count("ioerror_as_required")
-        elif exp[0] == "in" and got[0] == "ok" and got[1] == want and type(got[1]) is type(want):
-            rec.count("values_equal")
-        else:
-            key = mechanism_key(cname, kind, meth, op, exp, got, want, l, src.cursor_moved)
-            detail = "%s%r at %s (%s): %s" % (meth, args, pos, atomic_tag,
-                                             "%r, source has %r" % (got[1:], want) if exp[0] == "in"
-                                             else repr(got[1:]))
-            rec.fail(key, detail, wit)
+        judge(meth, op, args, exp, want, got, l, atomic_tag, wit)
         # put the cursor back most of the time (getbits/getlen look at it)
         if meth == "readbs":
             if rng.random() < 0.7:
@@ -458,24 +533,14 @@ def run_source(src, nreads, rng, rec):
                 outcome(bs.setoffset, cursor)
                 outcome(plain.setoffset, cursor)
         # ---- cached vs uncached
-        if in_atomic and meth != "readbs":
-            again = outcome(getattr(bs, meth), *args)
-            un = outcome(getattr(plain, meth), *args)
-            rec.count("cached_rereads")
-            if norm(again) != norm(got) or norm(un) != norm(got):
-                rec.fail("%s.%s: cached read differs from uncached read" % (cname, meth),
-                         "first %r, repeated %r, uncached %r" % (got, again, un), wit)
+        if in_atomic:
+            if meth != "readbs":
+                twin_check(meth, args, got, wit)
+                section.append((meth, op, args, addr, l))
             in_atomic -= 1
-            if in_atomic == 0:
-                r0 = outcome(bs.leave_atomic_mode)
-                if r0[0] != "ok":
-                    rec.fail("%s.leave_atomic_mode raises" % cname, repr(r0), src.note)
-                    return
-        elif in_atomic:
-            in_atomic -= 1
-            if in_atomic == 0:
-                outcome(bs.leave_atomic_mode)
-        # ---- mutate the VM between atomic sections
+            if in_atomic == 0 and not leave_section():
+                return
+        # ---- mutate the VM anywhere between atomic sections
         if kind == "vm" and in_atomic == 0 and rng.random() < 0.05:
             pa, pn = rng.choice(src.pages)
             off = rng.randrange(pn)
@@ -488,6 +553,8 @@ def run_source(src, nreads, rng, rec):
         outcome(bs.leave_atomic_mode)
     for f in getattr(src, "files", []):
         f.close()
+    if getattr(src, "wfd", None) is not None:
+        os.close(src.wfd)
 
 
 def run_shard(params, rec):
@@ -528,6 +595,10 @@ def floors(tier, counters, evaluations):
         miss.append("fewer than 20% of the bit reads are not byte-aligned")
     if counters.get("cached_rereads", 0) < 500:
         miss.append("fewer than 500 cached re-reads")
+    for k in ("vm", "file", "pe"):
+        if counters.get("replays_after_mutation_inside:" + k, 0) < 150:
+            miss.append("stream class %s: only %d in-source reads replayed in a new atomic section after their "
+                        "bytes changed (< 150)" % (k, counters.get("replays_after_mutation_inside:" + k, 0)))
     if counters.get("vm_mutations", 0) < 20:
         miss.append("fewer than 20 VM mutations between atomic sections")
     return miss
